@@ -222,6 +222,30 @@ impl Property for C09Prop {
                 if let Err(why) = compare(&o, &expected, true) {
                     return fail("C09:at:constant-index", format!("`{text}`: {why}"));
                 }
+                // a parameter that may be a string or an array (a union of two indexable types)
+                stats.eval();
+                let text = format!("f := (s: string|[any], i: int) -> any {{ return (s[i], std.len(s)); }}; f({seq_text}, {})", bound_text(Some(i)));
+                let o = run::run_text(&text, true);
+                let both = expected.clone().map(|e| lit::tuple(vec![e, json!(n)]));
+                if let Err(why) = compare(&o, &both, true) {
+                    return fail("C09:at:union-typed-sequence", format!("`{text}`: {why}"));
+                }
+                // `[v; k][i]`: a repeated constant behind a length known only at run time
+                if !is_str && n > 0 && elems.iter().all(|e| e == &elems[0]) || (!is_str && n == 0) {
+                    let v = if n > 0 { lit::to_text(&elems[0]) } else { "7".to_string() };
+                    for text in [
+                        format!("f := (k: int) -> any {{ return [{v}; k][{}]; }}; f({n})", bound_text(Some(i))),
+                        format!("f := (k: int, i: int) -> any {{ return [{v}; k][i]; }}; f({n}, {})", bound_text(Some(i))),
+                        format!("[{v}; {n}][{}]", bound_text(Some(i))),
+                    ] {
+                        stats.eval();
+                        let o = run::run_text(&text, false);
+                        let exp = if n == 0 { Err("IndexOutOfBounds") } else { expected.clone() };
+                        if let Err(why) = compare(&o, &exp, true) {
+                            return fail("C09:at:repeated", format!("`{text}`: {why}"));
+                        }
+                    }
+                }
                 if !is_str && n > 0 {
                     for hole in [0, n - 1] {
                         let mut parts: Vec<String> = elems.iter().map(lit::to_text).collect();
@@ -323,6 +347,13 @@ impl Property for C09Prop {
                 if let Err(why) = compare(&o, &Ok(expected.clone()), false) {
                     return fail("C09:slice:runtime", format!("`{ftext}` on {shown}: {why}"));
                 }
+                // a parameter that may be a string or an array
+                stats.eval();
+                let text = format!("f := (s: string|[any]) -> any {{ return s{suffix}; }}; f({seq_text})");
+                let o = run::run_text(&text, false);
+                if let Err(why) = compare(&o, &Ok(expected.clone()), true) {
+                    return fail("C09:slice:union-typed-sequence", format!("`{text}`: {why}"));
+                }
                 // constant bounds on a run-time sequence
                 stats.eval();
                 let text = format!("f := (s: {param_ty}) -> {ret} {{ return s{suffix}; }}; f({seq_text})");
@@ -404,6 +435,9 @@ fn sequences(max: usize) -> Vec<Json> {
         strings.push((0..n).map(|k| CHARS[(k * 7 + n) % 4]).collect());
         strings.push((0..n).map(|k| CHARS[(k + 1) % 4]).collect());
     }
+    for n in 0..=max.min(4) {
+        out.push(Json::Array((0..n).map(|_| json!(7)).collect()));
+    }
     // boundary scalars alone, next to ASCII and next to each other
     for c in BOUNDARY_CHARS {
         strings.push(c.to_string());
@@ -457,7 +491,7 @@ pub fn run(session: &Session) -> i32 {
         session.run_tapes(&C09, session.tier.of(40_000, 2_000_000), 40, 0);
     }
     session.finish(
-        "all arrays (distinct ints; mixed element types) of length 0..=max and all strings over {ASCII, 2-, 3-, 4-byte scalar} up to length 3 (+ samples up to max) and all strings of length 1-2 over 14 scalars whose UTF-8 encoding has a boundary lead or continuation byte (80 / BF in each position, ends of the 1-4 byte ranges) x every index in [-n-3, n+3] plus 10 extreme i64 values x every (start, stop, step) with each bound absent or in [-n-2, n+2] or MIN/MAX (exhaustive), plus tape-generated longer sequences and random bounds; oracle = Python's slice.indices re-implemented on i128, `[]` for step 0, index ok iff -n <= i < n, std.len = number of scalars; folded route (literal text, incl. the static type of the slice admitting the value), partially constant routes (constant index / bounds on a run-time sequence; literal array with one run-time element) and run-time route (function value called through create_call with the sequence and bounds as arguments; the function is declared to return the same kind as its argument). Non-trivial = a slice with at least one bound, an index on/next to a boundary or extreme, or a multi-byte string; distinct by case.",
+        "all arrays (distinct ints; mixed element types) of length 0..=max and all strings over {ASCII, 2-, 3-, 4-byte scalar} up to length 3 (+ samples up to max) and all strings of length 1-2 over 14 scalars whose UTF-8 encoding has a boundary lead or continuation byte (80 / BF in each position, ends of the 1-4 byte ranges) x every index in [-n-3, n+3] plus 10 extreme i64 values x every (start, stop, step) with each bound absent or in [-n-2, n+2] or MIN/MAX (exhaustive), plus tape-generated longer sequences and random bounds; oracle = Python's slice.indices re-implemented on i128, `[]` for step 0, index ok iff -n <= i < n, std.len = number of scalars; folded route (literal text, incl. the static type of the slice admitting the value), partially constant routes (constant index / bounds on a run-time sequence; literal array with one run-time element; `[v; k][i]` with k known only at run time), a parameter typed `string|[any]` and run-time route (function value called through create_call with the sequence and bounds as arguments; the function is declared to return the same kind as its argument). Non-trivial = a slice with at least one bound, an index on/next to a boundary or extreme, or a multi-byte string; distinct by case.",
         true,
         &["exhaustive over the stated small scope only; longer sequences are sampled"],
     )
